@@ -304,7 +304,7 @@ def main():
                     m = np.zeros((n, n))
                     for a_ in range(n):
                         for b_ in range(a_ + 1, n):
-                            m[a_, b_] = rng.randint(0, 4)
+                            m[a_, b_] = rng.randint(0, 4 if n <= 8 else 1)
                     graph = GraphCooperativeGame(m)
                     v = [float(x) for x in graph.get_values()]
                     partner = None
@@ -320,7 +320,7 @@ def main():
                     m = np.zeros((n, n))
                     for a_ in range(n):
                         for b_ in range(a_ + 1, n):
-                            m[a_, b_] = rng.randint(0, 4)
+                            m[a_, b_] = rng.randint(0, 4 if n <= 8 else 1)
                     tot = int(m.sum())
                     m[0, n - 1] += 2 ** max(1, tot).bit_length() - tot
                     g2 = GraphCooperativeGame(m)
